@@ -402,11 +402,40 @@ def sc_joinable_queue(env):
     return {"got": got, "codes": [p.exitcode for p in ps]}
 
 
+def w_task_reader(tasks, results):
+    while True:
+        t = tasks.get()
+        if t is None:
+            break
+        results.put(t * 10)
+
+
+def sc_reader_lock_leak(env):
+    """a worker killed while it waits inside Queue.get() keeps the queue's reader lock: a sibling
+    reading the same queue never receives anything"""
+    tasks = env.mp.Queue()
+    results = env.mp.Queue()
+    p1 = env.mp.Process(target=w_task_reader, args=(tasks, results))
+    p1.start()
+    env.wait_blocked_in_get(p1)
+    p2 = env.mp.Process(target=w_task_reader, args=(tasks, results))
+    p2.start()
+    env.wait_blocked_in_get(p2, "get-rlock")
+    p1.kill()
+    p1.join()
+    tasks.put(7)
+    got = _drain(env, results, 1, timeout=1.0)
+    alive = p2.is_alive()
+    p2.kill()
+    p2.join()
+    return {"victim": p1.exitcode, "got": got, "sibling_alive": alive}
+
+
 SCENARIOS = [
     sc_normal_exit, sc_exception_flushes, sc_sys_exit_3, sc_sigkill_prefix, sc_get_timeout_empty, sc_per_worker_fifo,
     sc_dead_means_flushed, sc_exitcode_while_alive, sc_terminate, sc_join_before_drain_big, sc_killed_holding_lock,
     sc_torn_frame_blocks_get, sc_pool_map, sc_pool_exception, sc_pool_worker_killed, sc_pool_sys_exit_in_task, sc_pool_close_join,
-    sc_pipe_eof, sc_simplequeue, sc_condition_turns, sc_joinable_queue,
+    sc_pipe_eof, sc_simplequeue, sc_condition_turns, sc_joinable_queue, sc_reader_lock_leak,
 ]
 
 
@@ -448,6 +477,9 @@ class RealEnv:
             return orig(conn, buf)
 
         c.Connection._send_bytes = send
+
+    def wait_blocked_in_get(self, proc, kind=None):
+        time.sleep(0.5)
 
     def blocks_forever(self, fn, wall):
         import threading
@@ -536,6 +568,11 @@ class SimEnv:
         victim = int(name.split("-")[1]) - 1
         ft = simmp.KillFault(victim, ["feeder", 0, "partial" if torn else "locked"], -9, False)
         self.world.faults.append(ft)
+
+    def wait_blocked_in_get(self, proc, kind="get"):
+        from sim.kernel import Op
+
+        self.world.seam(Op("wait-blocked", proc.label, can_run=lambda: proc.task.pending is not None and proc.task.pending.kind == kind))
 
     def blocks_forever(self, fn, wall):
         self.world.expect_block = True
